@@ -1136,3 +1136,30 @@ package ro
 //@ loop IntervalWithInitial$1$1#0
 //@   iteration ensures count(chselect) == 1 && count(chpoll) == 0 && count(chrecv.ANY) == 0 && count(destination.NextWithContext) <= 1 && before(chselect, destination.NextWithContext)
 //@   iteration ensures called(destination.NextWithContext) ==> arg(destination.NextWithContext, 0) == ctx && arg(destination.NextWithContext, 1) == value - 1
+
+// math lifts: each value is replaced by what the standard function returns for it (floating point itself is not reasoned about)
+
+//@ operator Abs
+//@   props C04
+//@   track call.Abs
+//@   on next(ctx, value) : emits call.Abs(value), Next(ctx, res(call.Abs))
+
+//@ operator Round
+//@   props C04
+//@   track call.Round
+//@   on next(ctx, value) : emits call.Round(value), Next(ctx, res(call.Round))
+
+//@ operator Ceil
+//@   props C04
+//@   track call.Ceil
+//@   on next(ctx, value) : emits call.Ceil(value), Next(ctx, res(call.Ceil))
+
+//@ operator Floor
+//@   props C04
+//@   track call.Floor
+//@   on next(ctx, value) : emits call.Floor(value), Next(ctx, res(call.Floor))
+
+//@ operator Trunc
+//@   props C04
+//@   track call.Trunc
+//@   on next(ctx, value) : emits call.Trunc(value), Next(ctx, res(call.Trunc))
